@@ -196,6 +196,8 @@ func famSchema(tr *Trace, scratch string, seed int64, tier string, repo, nfpmBin
 	}
 	// (1) the published file equals what the command writes
 	emitted := filepath.Join(scratch, "emitted-schema.json")
+	// something longer is already at the output path (a schema written by an earlier version)
+	must(os.WriteFile(emitted, bytes.Repeat([]byte("{\"stale\": true}\n"), 4000), 0o644))
 	out, err := exec.Command(nfpmBin, "jsonschema", "-o", emitted).CombinedOutput()
 	eb, _ := os.ReadFile(emitted)
 	pb, perr := os.ReadFile(repo + "/www/docs/static/schema.json")
@@ -341,6 +343,14 @@ func famSchema(tr *Trace, scratch string, seed int64, tier string, repo, nfpmBin
 			es = safeStr(strings.Join(errs, "; "))
 		}
 		emit(M{"ev": "leafprobe", "path": strings.ReplaceAll(k.String(), "<fmt>", "deb"), "parser_accepts": perr == nil, "schema_valid": len(errs) == 0, "schema_err": es})
+	}
+
+	// file modes: plain, and with setuid / setgid / sticky bits (decimal in JSON)
+	for _, mode := range []string{"0o644", "0o755", "0o4755", "0o2755", "0o1777", "0o7777"} {
+		d := base()
+		d["contents"] = []any{map[string]any{"src": root0 + "/src/bin", "dst": "/usr/bin/probe", "file_info": map[string]any{"mode": rawYAML(mode)}}}
+		d["umask"] = rawYAML("0o27")
+		probe("contents[].file_info.mode", mode, d, allFormats)
 	}
 
 	// (4) generated valid configurations, as documents
